@@ -7,7 +7,7 @@
      * the allocator's answers are read off the RAW FILE after the call (header and data-chunk table decoded with the
        extracted AdfCodec decoders): the start of a chunk / table the node did not have before;
      * the monitors of the theorems' hypotheses are evaluated BEFORE the step:  VIOL unsafe-wall | unsafe-wblk | dims |
-       alloc | zerosrc  <op>;
+       range (65535 chunks, empty block) | buffer | alloc | zerosrc  <op>;
      * the model takes the step; compared: the status; for reads every byte the model specifies ('?' = unspecified is a
        wildcard); for mutators the decoded header (type, dimensions, number of chunks, data pointer), the decoded
        table (start and end of every entry = number of chunks and capacity of each), every chunk's OWN end pointer and
@@ -225,9 +225,12 @@ let do_block (b : blockrec) =
       | _ -> [] in
     (match o with
      | PutDims (_, _) -> if not (safe_step !cf fa !st o) then say ("VIOL dims " ^ desc)
-     | WriteAll _ -> if not (safe_step !cf fa !st o) then say ("VIOL unsafe-wall " ^ desc)
-     | WriteBlock (_, _, _) -> if not (safe_step !cf fa !st o) then say ("VIOL unsafe-wblk " ^ desc)
-     | _ -> ());
+     | WriteAll _ -> if not (wall_safe !cf fa !st) then say ("VIOL unsafe-wall " ^ desc)
+                     else if not (safe_step !cf fa !st o) then say ("VIOL range " ^ desc)
+     | WriteBlock (bs, be, _) -> if not (wblock_safe !cf fa !st bs be) then say ("VIOL unsafe-wblk " ^ desc)
+                                 else if not (safe_step !cf fa !st o) then say ("VIOL range " ^ desc)
+     | _ -> if not (safe_step !cf fa !st o) then say ("VIOL range " ^ desc));
+    if not (buf_ok !st.s_h o) then say ("VIOL buffer " ^ desc);
     if al <> [] && not (alloc_ok fa !st o al) then say ("VIOL alloc " ^ desc);
     if not (zero_ok !cf fa !st o al) then say ("VIOL zerosrc " ^ desc);
     let pre_total = iz (total_bytes !st.s_h) and pre_caps_l = pre_caps () in
@@ -319,7 +322,7 @@ let do_block (b : blockrec) =
   | ["rblk"; bs; be] -> bump "read_block"; note_block (int_of_string bs) (int_of_string be);
     readop (ReadBlock (zi (int_of_string bs), zi (int_of_string be)))
   | "rsel" :: rest -> bump "read_strided"; let (sel, _) = parse_sel rest in note_strided_boundaries sel; readop (ReadStrided sel)
-  | ["close"] -> say "ok"
+  | ["close"] | ["arm"] | ["disarm"] -> say "ok"
   | _ -> say ("DIFF unknown op " ^ desc)
 
 let run () =
